@@ -78,9 +78,9 @@ def all_lengths(m, cfgname, fname):
 
 LOOP_NEXT = ('core::iter::range::<impl core::iter::traits::iterator::Iterator for core::ops::range::Range<A>>::next',
              '<core::iter::adapters::rev::Rev<I> as core::iter::traits::iterator::Iterator>::next')
-STEP_SYM = [32, 33, 47, 48, 49, 64, 65]
-STEP_QUICK = list(range(32, 50)) + [63, 64, 65, 80]
-STEP_THOROUGH = list(range(32, 130))
+STEP_SYM = [32, 33, 47, 48, 49, 64, 65, 512, 513]
+STEP_QUICK = list(range(32, 50)) + [63, 64, 65, 80, 255, 256, 512]
+STEP_THOROUGH = list(range(32, 130)) + [255, 256, 257, 512, 513, 528]
 
 
 def step_reference(job):
